@@ -118,7 +118,11 @@ theorem store_ok (c : SplitCfg) (hu : isUnixStyle c.flags = true) (ha : c.flags.
       split <;> exact ⟨_, rfl⟩
     | true =>
       simp only [if_true]
-      obtain ⟨r, hr⟩ := compilePart_ok_of_rel c.flags c.isBytes v hu ha hv
+      have hu' : isUnixStyle c.partFlags = true := by
+        simpa [SplitCfg.partFlags, Flags.noBase, isUnixStyle] using hu
+      have ha' : c.partFlags.anchor = false := by
+        simpa [SplitCfg.partFlags, Flags.noBase] using ha
+      obtain ⟨r, hr⟩ := compilePart_ok_of_rel c.partFlags c.isBytes v hu' ha' hv
       simp only [hr, Except.map]
       split <;> exact ⟨_, rfl⟩
 
